@@ -367,7 +367,9 @@ class Base(_BaseClass):
         resulttokens = []
         if starttoken:
             resulttokens.append(starttoken)
-            val = starttoken[1]
+            # an IDENT is a name, never a bracket, even if it is written as an
+            # escape of one ("\\7b " has the value "{")
+            val = starttoken[1] if Base._prods.IDENT != starttoken[0] else None
             if '[' == val:
                 bracket += 1
             elif '{' == val:
@@ -382,6 +384,11 @@ class Base(_BaseClass):
                 if 'EOF' == typ:
                     resulttokens.append(token)
                     break
+
+                if Base._prods.IDENT == typ:
+                    # a name, never a bracket or an end character, even if it
+                    # is written as an escape of one ("\\7b ", "\\3b ")
+                    val = None
 
                 if '{' == val:
                     brace += 1
@@ -401,7 +408,8 @@ class Base(_BaseClass):
                 resulttokens.append(token)
 
                 if (brace == bracket == parant == 0) and (
-                        val in ends or typ in endtypes):
+                        (val is not None and val in ends) or
+                        typ in endtypes):
                     break
                 elif mediaqueryendonly and brace == - 1 and (
                         bracket == parant == 0) and typ in endtypes:
